@@ -330,7 +330,7 @@ func c16(c *an.Ctx) {
 		cls := rerunnerClosures(fn)
 		an.Need(len(cls) == 1, "subscribe closure")
 		cl := cls[0]
-		init := an.FreeVarNamed(cl, "initial")
+		init := closureRoleVar(cl, "IsInitialComputation")
 		an.Need(init != nil, "captured initial")
 		var errW []ssa.Instruction
 		for _, ev := range envelopesIn(cl) {
@@ -377,7 +377,7 @@ func c16(c *an.Ctx) {
 					o.FailAt(w, "the error can be reported twice")
 				}
 			}
-			if !an.HasGuard(w.Block(), "initial") {
+			if !an.HasGuard(w.Block(), init.Name()) {
 				o.FailAt(w, "an error envelope is written on a re-computation (guards %v): transient failures must be retried silently", an.GuardStrings(w.Block()))
 			}
 		}
@@ -400,7 +400,7 @@ func c16(c *an.Ctx) {
 			if strings.Contains(an.Expr(ev), "RetrySentinelError") {
 				nRetry++
 				o.Site(e)
-				if !an.HasGuard(e.Block(), "!initial") {
+				if !an.HasGuard(e.Block(), "!"+init.Name()) {
 					o.FailAt(e, "RetrySentinelError returned while initial may hold")
 				}
 			}
